@@ -492,6 +492,8 @@ def run(tier, seed):
              "incl. across versions and models/move/remove/set data/attributes/files) with reload + order oracle after every operation; "
              "all 532 cross-version copy combinations; attach sweep: per version (quick: newest, oldest, median; thorough: all) every name that two parent types list with "
              "different child ElementTypes x every ordered pair of child types x {move in one model, move from another model, copy}: reload of the target file; "
+             "cross-version content sweep: every datatype x every attribute / attribute enum value / text enum value / sub-element with a partial version mask, built inside the mask "
+             "(oldest, newest version), copied with create_copied_sub_element[_at] into versions outside and inside the mask (both directions), target file re-loaded; "
              "distinct_nontrivial = (type, version, content) scenarios swept",
         trusted_base=["Coq 8.16.1 kernel incl. vm_compute", "translator/spec.py, specwf.py (copy literals; lengths asserted)",
                       "extraction (ExtrOcamlBasic only) + ocaml/range_driver.ml, tree_driver.ml for the tie",
